@@ -1,6 +1,6 @@
 //! C09 / C11 — PatternEncoder::new + Encode::encode on the real crate.
 //! All strings are lists of code points.  Options are () or (v).
-//! case:   ( mode pattern rec mdc thread treqs )
+//! case:   ( mode pattern rec mdc thread treqs )   |   ( 3 chars ) -> cls of those chars only
 //!   mode   1 = construct and encode, 2 = construct only (absurd widths)
 //!   rec    ( level msg target module? file? line? )
 //!   mdc    ( (key value)* )
@@ -80,9 +80,44 @@ fn strftime_valid(fmt: &str) -> bool {
     !chrono::format::StrftimeItems::new(fmt).any(|i| i == chrono::format::Item::Error)
 }
 
+fn cls_of(chars: impl Iterator<Item = char>) -> Val {
+    let mut cls = vec![];
+    let mut seen = std::collections::BTreeSet::new();
+    for ch in chars {
+        if (ch as u32) >= 128 && seen.insert(ch) {
+            cls.push(Val::L(vec![
+                Val::N(ch as u128),
+                Val::bool(ch.is_alphabetic()),
+                Val::bool(ch.is_alphanumeric()),
+            ]));
+        }
+    }
+    Val::L(cls)
+}
+
+/// lengths of the text events / style codes: equal shapes of two consecutive
+/// encodings mean the clock-dependent parts had the same widths
+fn shape(v: &Val) -> Vec<u128> {
+    match v {
+        Val::L(evs) => evs
+            .iter()
+            .map(|e| match e {
+                Val::L(cs) => cs.len() as u128,
+                Val::N(n) => 1_000_000 + *n,
+                Val::S(b) => 2_000_000 + b.len() as u128,
+            })
+            .collect(),
+        _ => vec![],
+    }
+}
+
 fn body(case: &Val) -> Val {
     let c = case.l();
     let mode = c[0].n();
+    if mode == 3 {
+        // character-class oracle only
+        return cls_of(cps(&c[1]).chars());
+    }
     let pattern = cps(&c[1]);
     let rec = c[2].l();
     let lvl = vh::util::level(rec[0].n());
@@ -97,17 +132,7 @@ fn body(case: &Val) -> Val {
     }
     let treqs: Vec<String> = c[5].l().iter().map(cps).collect();
 
-    let mut cls = vec![];
-    let mut seen = std::collections::BTreeSet::new();
-    for ch in pattern.chars() {
-        if (ch as u32) >= 128 && seen.insert(ch) {
-            cls.push(Val::L(vec![
-                Val::N(ch as u128),
-                Val::bool(ch.is_alphabetic()),
-                Val::bool(ch.is_alphanumeric()),
-            ]));
-        }
-    }
+    let cls = cls_of(pattern.chars());
     let rt = Val::L(vec![
         Val::N(std::process::id() as u128),
         Val::N(thread_id::get() as u128),
@@ -120,36 +145,62 @@ fn body(case: &Val) -> Val {
             (false, String::new(), String::new())
         }
     };
-    let before: Vec<_> = treqs.iter().map(|f| render(f)).collect();
-
-    let res = std::panic::catch_unwind(std::panic::AssertUnwindSafe(|| {
-        let enc = PatternEncoder::new(&pattern);
-        if mode == 2 {
-            return Val::text("ok");
+    let attempt = || -> Val {
+        let res = std::panic::catch_unwind(std::panic::AssertUnwindSafe(|| {
+            let enc = PatternEncoder::new(&pattern);
+            if mode == 2 {
+                return Val::text("ok");
+            }
+            let mut cap = Cap { ev: vec![], cur: vec![] };
+            let r = enc.encode(
+                &mut cap,
+                &log::Record::builder()
+                    .level(lvl)
+                    .target(&target)
+                    .module_path(module.as_deref())
+                    .file(file.as_deref())
+                    .line(line)
+                    .args(format_args!("{}", msg))
+                    .build(),
+            );
+            cap.flush_text();
+            match r {
+                Ok(()) => Val::L(cap.ev),
+                Err(_) => Val::err(1),
+            }
+        }));
+        match res {
+            Ok(v) => v,
+            Err(_) => Val::panic(),
         }
-        let mut cap = Cap { ev: vec![], cur: vec![] };
-        let r = enc.encode(
-            &mut cap,
-            &log::Record::builder()
-                .level(lvl)
-                .target(&target)
-                .module_path(module.as_deref())
-                .file(file.as_deref())
-                .line(line)
-                .args(format_args!("{}", msg))
-                .build(),
-        );
-        cap.flush_text();
-        match r {
-            Ok(()) => Val::L(cap.ev),
-            Err(_) => Val::err(1),
-        }
-    }));
-    let res = match res {
-        Ok(v) => v,
-        Err(_) => Val::panic(),
     };
-    let after: Vec<_> = treqs.iter().map(|f| render(f)).collect();
+    // The clock cannot be injected: render the requested formats before and
+    // after the encode call.  When a rendering changed in between (sub-second
+    // or second directives) its width may also vary (chrono's %+ prints 0/3/6/9
+    // fractional digits): retry until before/after have equal widths and two
+    // consecutive encodings have the same shape.
+    let mut tries = 0;
+    let (before, res, after) = loop {
+        tries += 1;
+        let before: Vec<_> = treqs.iter().map(|f| render(f)).collect();
+        let res = attempt();
+        let after: Vec<_> = treqs.iter().map(|f| render(f)).collect();
+        let unstable = before.iter().zip(after.iter()).any(|(b, a)| b != a);
+        let same_width = before.iter().zip(after.iter()).all(|(b, a)| {
+            b.1.chars().count() == a.1.chars().count() && b.2.chars().count() == a.2.chars().count()
+        });
+        let ok = if !unstable {
+            true
+        } else if !same_width {
+            false
+        } else {
+            let again = attempt();
+            shape(&again) == shape(&res)
+        };
+        if ok || tries >= 6 {
+            break (before, res, after);
+        }
+    };
     log_mdc::clear();
     let times = before
         .iter()
@@ -158,10 +209,13 @@ fn body(case: &Val) -> Val {
             Val::L(vec![Val::bool(b.0), to_cps(&b.1), to_cps(&a.1), to_cps(&b.2), to_cps(&a.2)])
         })
         .collect();
-    Val::L(vec![Val::L(cls), rt, Val::L(times), res])
+    Val::L(vec![cls, rt, Val::L(times), res])
 }
 
 fn run(case: &Val) -> Val {
+    if case.l()[0].n() == 3 {
+        return body(case);
+    }
     let thread = opt_cps(&case.l()[4]);
     let case = case.clone();
     let mut b = std::thread::Builder::new();
